@@ -21,7 +21,11 @@ RULE = ('A case is a batch of hypernym digraphs (edge i->j = "j is a hypernym of
         'graph: roots/leaves/taxonomy_depth per part of speech, hypernym_paths/min_depth/max_depth per node, '
         'common/lowest_common_hypernyms/shortest_path per ordered pair (all pairs for n<=5, 16 '
         'drawn pairs above), each with simulate_root False and True, compared with brute-force '
-        'reference functions. Non-trivial graph: multiple inheritance, >=2 roots or a cycle; the '
+        'reference functions. Sub interlingual: a sparse lexicon L expanded over E (C12\'s '
+        'generator plus a constructed chain of two concepts L lacks below two synsets of L): '
+        'common_hypernyms(a,b) for all pairs of one lexicon == intersection of the reference '
+        'ancestor sets on the ILI-mapped graph (placeholders identified by ILI), lowest a non-empty '
+        'subset of it. Non-trivial graph: multiple inheritance, >=2 roots or a cycle; the '
         'class histogram counts graphs, not batches.')
 ASSUMPTIONS = [
     'roots/leaves: a self-loop counts as a declared hypernym/hyponym; leaves are only compared '
@@ -320,7 +324,110 @@ def _random_big(tier):
     return G.batch_of(_big_graph(), (1, 3, 2, 4, 3, 4))
 
 
+# ---------------------------------------------------------------------------
+# interlingual graphs: hypernymy borrowed from expand lexicons, gaps become placeholders
+
+_HYP = ('hypernym', 'instance_hypernym')
+
+
+@st.composite
+def _il_drawn(draw):
+    from . import c11
+    case = draw(c11._x_cases())
+    E1, L = case['lexicons']['E:1'], case['lexicons']['L:1']
+    if len(E1['synsets']) >= 3 and len(L['synsets']) >= 2 and draw(st.booleans()):
+        # two synsets of L below a chain of two concepts L lacks
+        a, g1, g2 = E1['synsets'][:3]
+        a['ili'] = L['synsets'][0]['ili'] = 'i1'
+        g1['ili'], g2['ili'] = 'ix', 'iy'
+        for src, tgt in ((a, g1), (g1, g2)):
+            src.setdefault('relations', []).append(
+                {'target': tgt['id'], 'relType': 'hypernym', 'meta': None})
+        L['synsets'][1]['ili'] = draw(st.sampled_from(['i1', 'ix2']))
+        if L['synsets'][1]['ili'] == 'ix2' and len(E1['synsets']) >= 4:
+            b = E1['synsets'][3]
+            b['ili'] = 'ix2'
+            b.setdefault('relations', []).append(
+                {'target': draw(st.sampled_from([g1['id'], g2['id']])),
+                 'relType': 'hypernym', 'meta': None})
+        if case['expand'] in ('', None):
+            case['expand'] = draw(st.sampled_from(['E:1', '*']))
+        if case['selection'] == 'L:1 E:1':
+            case['selection'] = 'L:1'
+    return case
+
+
+def _il_cases(tier):
+    return _il_drawn()
+
+
+def _il_classify(case):
+    from . import c11, c12
+    from ..refdb import RefDB
+    ref = RefDB()
+    for spec in case['order']:
+        ref.add_resource({'lmf_version': '1.1', 'lexicons': [case['lexicons'][spec]]})
+    view = c12._view(ref, case)
+    tags = set()
+    anc = {r.key: set(c11._x_reach(view, r, _HYP)) | {r.key} for r in view.synsets()}
+    rs = list(view.synsets())
+    for a in rs:
+        for b in rs:
+            if a is b or a.owner is not b.owner:
+                continue
+            common = anc[a.key] & anc[b.key]
+            ph = [k for k in common if k.startswith('*INFERRED*')]
+            if ph:
+                tags.add('common-placeholder-ancestor')
+            if len(ph) >= 2:
+                tags.add('common->=2-placeholder-ancestors')
+    return bool(tags), sorted(tags)
+
+
+def _il_oracle(case):
+    from . import c11, c12
+    from .. import observe
+    from ..observe import key_of, _raised
+    ref = c12._setup(case)
+    view = c12._view(ref, case)
+    w, _warns = observe.make_wordnet(case['selection'], None, case['expand'])
+    if _raised(w):
+        return [Disc('wordnet-raises', '', 'Wordnet object', w)]
+    out = []
+    bykey = {key_of(x): x for x in w.synsets()}
+    rs = [r for r in view.synsets() if r.key in bykey]
+    anc = {r.key: set(c11._x_reach(view, r, _HYP)) | {r.key} for r in rs}
+    for a in rs:
+        for b in rs:
+            if a.owner is not b.owner:
+                continue
+            exp = sorted(anc[a.key] & anc[b.key])
+            got = observe.call(bykey[a.key].common_hypernyms, bykey[b.key])
+            if not _raised(got):
+                got = sorted({c12._kstr(key_of(x)) for x in got})
+            if got != exp:
+                out.append(Disc('interlingual:common-hypernyms-differ',
+                                f'common_hypernyms({a.key},{b.key})', exp, got))
+                if len(out) >= _MAX_DISCS:
+                    return out
+                continue
+            low = observe.call(bykey[a.key].lowest_common_hypernyms, bykey[b.key])
+            if _raised(low):
+                out.append(Disc('interlingual:lowest-raises',
+                                f'lowest_common_hypernyms({a.key},{b.key})', 'a list', low))
+            else:
+                lk = {c12._kstr(key_of(x)) for x in low}
+                if not lk <= set(exp) or (exp and not lk):
+                    out.append(Disc('interlingual:lowest-not-among-common',
+                                    f'lowest_common_hypernyms({a.key},{b.key})',
+                                    {'nonempty subset of': exp}, sorted(lk)))
+    return out
+
+
 SUBS = [
+    Sub('interlingual', _il_oracle, _il_classify, strategy=_il_cases,
+        budget={'quick': 60, 'thorough': 1500}, case_timeout=120, timeout_is_violation=True,
+        sample=lambda c: c, require_tags=('common->=2-placeholder-ancestors',)),
     Sub('enum-n<=3', oracle, _classify, enumerate=_enum_small,
         exhaustive_note='all 530 labelled digraphs (self-loops included) on 1-3 nodes, each '
                         'with a plain and a labelled a/s variant; all ordered pairs; '
